@@ -19,7 +19,7 @@ from .. import wbk
 
 ID = 'C09'
 LEVEL = 'exploration'
-BUDGET_S = {'quick': 200, 'thorough': 1800}
+BUDGET_S = {'quick': 300, 'thorough': 1800}
 RULE = ('(a) stateful facade histories of <= 15 calls, every get/write compared with a fresh Parser; a case = one history; non-trivial = '
         '>= 2 gets separated by a setter that changes the expected outcome (other path content, other entry, safety flip on the suspicious '
         'workbook); (b)/(c) a case = one (workbook, entry, hash seed / process history / thread run) translation whose sha256 is compared '
